@@ -276,6 +276,7 @@ fn check_living(c: &super::c03::HCase, obs: &mut Obs) -> Verdict {
         Err(e) => return Verdict::Fail(e),
     };
     obs.class(if c.in_index { "object-inside-index-section" } else { "object-top-level" });
+    obs.class_if(c.fb.is_some(), "object-is-a-hermes-map(ops through DerefMut)");
     let v = roundtrip(&obj, false, obs);
     if !v.is_pass() {
         return v;
